@@ -153,7 +153,10 @@ def eval_case(ctx, case):
     obs_in = [s for lvl, s in observed if lvl <= depth]
     ctx.count("headings_within_depth", len(within))
     if func:
-        return eval_custom(ctx, case, func, within, obs_in, wtext, doc, detail)
+        eval_custom(ctx, case, func, within, obs_in, wtext, doc, detail)
+        if func["name"] in ("shout", "boom_some"):
+            check_resolution(ctx, case, text, kw, tt, depth, obs_in, detail, src, safe_only=True)  # custom anchors must resolve as well
+        return
     if any(s is None for s in obs_in):
         ctx.violation("depth:anchor-missing", f"a heading within depth {depth} has no anchor", case, detail)
         return
@@ -193,8 +196,17 @@ def eval_case(ctx, case):
             ctx.violation("cli:differs", f"rendering assigns {obs_in}, myst-anchors prints {cli_ids}", case, detail)
             return
     ctx.count("cli_compared")
-    # (3) self-resolution
-    links = "".join(f"\n[lk{i}x](<#{s}>)\n" for i, s in enumerate(obs_in))
+    check_resolution(ctx, case, text, kw, tt, depth, obs_in, detail, src)
+
+
+def check_resolution(ctx, case, text, kw, tt, depth, obs_in, detail, src, safe_only=False):
+    """(3) every assigned anchor, used as '[..](#anchor)', resolves to its own heading."""
+    from docutils import nodes
+
+    usable = [(i, s) for i, s in enumerate(obs_in) if s is not None and not any(ch in s for ch in "<>\n\\")]
+    if safe_only:  # an arbitrary custom slug need not be expressible as a link destination: keep the plainly expressible ones
+        usable = [(i, s) for i, s in usable if re.fullmatch(r"[A-Za-z0-9_-]+", s)]
+    links = "".join(f"\n[lk{i}x](<#{s}>)\n" for i, s in usable)
     try:
         doc2, w2 = drive.parse(text + links, source_path=src, doctitle_xform=False, **kw)
     except Exception as e:  # noqa: BLE001
@@ -207,7 +219,7 @@ def eval_case(ctx, case):
         t = r.astext()
         if t.startswith("lk") and t.endswith("x"):
             refs[int(t[2:-1])] = r
-    for i, s in enumerate(obs_in):
+    for i, s in usable:
         r = refs.get(i)
         if r is None:
             ctx.violation("resolve:link-lost", f"the link to #{s} is not in the doctree", case, detail)
@@ -217,8 +229,9 @@ def eval_case(ctx, case):
             ctx.violation("resolve:wrong-heading" if where is not None else "resolve:unresolved", f"[](#{s}) has refid {r.get('refid')!r}; heading {i} has ids {in2[i]['ids'] if i < len(in2) else None} (lands on heading {where})", case, {**detail, "warnings": w2})
         else:
             ctx.count("links_resolved_to_own_heading")
-    if "[myst." in w2.replace("[myst.header]", ""):
+    if "[myst." in w2.replace("[myst.header]", "").replace("[myst.heading_slug]", ""):
         ctx.violation("resolve:warning", f"unexpected warning: {w2.strip()[:160]}", case, detail)
+
 
 
 def eval_custom(ctx, case, func, within, obs_in, wtext, doc, detail):
